@@ -138,9 +138,21 @@ func cmdCheck(args []string) int {
 			assume[a] = true
 		}
 	}
+	genSecs := time.Since(t0).Seconds() - loadSecs
 	work := filepath.Join(verifDir, "work", *prop)
 	os.RemoveAll(work)
-	discharge(all, work, *tier, 8)
+	discharge(all, work, *tier, 16)
+	// obligations no solver decided within the quick budget get one retry with a larger one before
+	// anything is reported (a time-out is not a counterexample)
+	var retry []*Obligation
+	for _, o := range all {
+		if o.Script != "" && !o.Cover && !o.Must && o.Status != "unsat" && o.Status != "sat" {
+			retry = append(retry, o)
+		}
+	}
+	if len(retry) > 0 && len(retry) <= 40 && *tier == "quick" {
+		discharge(retry, work, "retry", 5)
+	}
 	aggs := aggregate(all)
 	known, _ := loadKnownFindings()
 	isKnown := func(name string) *knownFinding {
@@ -295,6 +307,7 @@ func cmdCheck(args []string) int {
 			"solver_wins":              solverWins,
 			"solver_cpu_s":             round2(solverSecs),
 			"load_s":                   round2(loadSecs),
+			"vcgen_s":                  round2(genSecs),
 			"samples":                  samples,
 			"back_ends":                []string{"z3-new 5.1.0", "cvc5 1.0", "z3 4.8.12 (raced per obligation)"},
 			"contract_files":           p.specs.Files,
